@@ -942,6 +942,7 @@ def describe(prop):
             "rows of the export use the header's ';' delimiter and 6 decimals",
             "a save that raises may leave anything on disk; a save that returns must have written the complete file",
             "isodensity lines are judged by evaluating the model's pdf at the drawn vertices (25 % tolerance for grid interpolation)",
+            "a contour's coordinates are compared before and after every plot; level-line vertices next to a non-finite density are not judged",
         ],
         "probes": ["save-after-fault-recovers", "save-overwrites", "reader-bypassed-file-seam", "file-read-again-after-caller-changed-frame", "save-overwrites-with-shorter-contour", "default-dataset-read"],
     }
